@@ -157,7 +157,7 @@ PROPS = {
     "C06": {
         "level": "model_checking",
         "interpreters": PRODUCERS,
-        "rule": "(i) explicit-state search: from every code object of every 5th program of stratum Pa (thorough: all of Pa + a third of Pb) and of the jump-width programs J (bodies up to 200 statements, so that re-encoding normalized data must grow jumps), breadth-first over the operations {code round trip, JSON round trip, normalize} applied to real CodeData values hash-consed by strict key (NaNs identified), to closure or depth 4 (thorough 6); invariants on every state: normalize idempotent, normalize(state) == normalize(from_code(c0)); a graph that does not close is a violation. (ii) every serialization variant of every code object with tables <=6 entries: all permutations (<=4 movable entries; transpositions above) of the name/constant/local/cell tables with operands renumbered (docstring slot, parameters and free variables fixed), one unreferenced padding entry at every movable position, a redundant EXTENDED_ARG 0 before each instruction in turn, a harness re-assembly with a different line-table encoding, CO_NESTED toggled; each also substituted inside its parents up to the root. Each variant is first confirmed (harness self-check) to read to CPython exactly like the original. states = CodeData values reached; transitions = operation applications; traces_validated_against_impl = graphs explored on the real implementation.",
+        "rule": "(i) explicit-state search: from every code object of every 8th program of stratum Pa, of every statement template in every context (P1), of the equal-but-distinct-constant programs Q (thorough: all of Pa + a third of Pb) and of the jump-width programs J (bodies up to 200 statements, so that re-encoding normalized data must grow jumps), breadth-first over the operations {code round trip, JSON round trip, normalize} applied to real CodeData values hash-consed by strict key (NaNs identified), to closure or depth 4 (thorough 6); invariants on every state: normalize idempotent, normalize(state) == normalize(from_code(c0)); a graph that does not close is a violation. (ii) every serialization variant of every code object with tables <=6 entries: all permutations (<=4 movable entries; transpositions above) of the name/constant/local/cell tables with operands renumbered (docstring slot, parameters and free variables fixed), one unreferenced padding entry at every movable position, a redundant EXTENDED_ARG 0 before each instruction in turn, a harness re-assembly with a different line-table encoding, CO_NESTED toggled; each also substituted inside its parents up to the root. Each variant is first confirmed (harness self-check) to read to CPython exactly like the original. states = CodeData values reached; transitions = operation applications; traces_validated_against_impl = graphs explored on the real implementation.",
         "assumptions": TRUST,
         "required_reach": {"quick": ["graph-closed", "variant:permute", "variant:pad", "variant:extended-arg-0", "variant:toggle", "variant:reassembled", "variant-nested", "variant-ok"]},
     },
